@@ -35,7 +35,8 @@ LEVEL_TEXT = ("Exploration: hundreds (quick) to thousands (thorough) of generate
               "Populations of 140-200 files are walked twice; map runs with verbose off and on with a deliberately slow first tree."
               " Directory roots are spelled with trailing / doubled separators and relative to the working directory."
               " Some directory entries are symbolic links to files stored elsewhere."
-              " Slices of populations made of slices; chaining without intersection.")
+              " Slices of populations made of slices; chaining without intersection."
+              " Extension filters given explicitly next to extension-less files.")
 LEVEL_NOTE = ("'The i-th file' is the i-th entry of the library's own listing (Population.find_swcs), "
               "which must be a permutation of the layout's .swc files; the order of a directory walk "
               "is the operating system's. Population.map runs in worker processes and is decided at "
